@@ -361,7 +361,7 @@ def xor_wiring(k0, k1, k2, q0, q1):
 OBLIGATIONS.append(Ob("xor_wiring_keys_000_999", xor_wiring,
                       [("k0", "byte"), ("k1", "byte"), ("k2", "byte"), ("q0", "byte"), ("q1", "byte")],
                       pre=" and ".join(f"48 <= k{i} <= 57" for i in range(3)) + " and " + CLASSES["b64"].format(x="q0") + " and " + CLASSES["b64"].format(x="q1"),
-                      tier="both", timeout=300, layer="C",
+                      tier="both", timeout=400, layer="C",
                       functions=["multidecoder.decoders.base64.find_FromBase64String", "multidecoder.xor_helper.get_xorkey",
                                  "multidecoder.xor_helper.apply_xor_key"],
                       bound="-bxor followed by three free digits (keys 000..999), one free base64 pair"))
